@@ -4,7 +4,7 @@ package stub
 
 // Contracts for the executable stub space (property C20), checked by /verif/bin/govc.
 
-//@ pure func holder_wf() bool = placeHolderIns != nil && placeHolderIns.min <= placeHolderIns.off && placeHolderIns.max < 0x8000000000000000 && errSpaceOverflow != nil
+//@ pure func holder_wf() bool = placeHolderIns != nil && placeHolderIns.min <= placeHolderIns.off && placeHolderIns.max < 0x7fffffff00000000 && errSpaceOverflow != nil
 
 //@ func acquireFromHolder
 //@   props C20
@@ -12,7 +12,7 @@ package stub
 //@   requires wf: holder_wf()
 //@   assigns placeHolderIns.off, ticket_lo, ticket_hi
 //@   ensures owned_region: result2 == nil ==> result0 == ticket_lo && result0 + uintptr(len) == ticket_hi
-//@   ensures inside_reserve: result2 == nil ==> placeHolderIns.min <= result0 && result0 + uintptr(len) <= placeHolderIns.max
+//@   ensures inside_reserve: result2 == nil ==> placeHolderIns.min <= result0 && result0 + uintptr(len) <= placeHolderIns.max && result0 <= result0 + uintptr(len)
 //@   ensures window: result2 == nil ==> result1 != nil && *result1 == mkslice(textref, result0, len, len)
 //@   ensures counter_monotone: placeHolderIns.off >= old(placeHolderIns.off)
 //@   ensures wf_kept: holder_wf()
@@ -33,7 +33,7 @@ package stub
 //@   ensures shape: result1 == nil ==> result0 != nil && fresh(result0) && result0.Space != nil && len(*result0.Space) == spaceLen && (result0.typ == TypeMMap || result0.typ == TypeHolder)
 //@   ensures mmap_region: result1 == nil && result0.typ == TypeMMap ==> fresh(*result0.Space) && spaceLen > 0 && result0.Addr == addr(arr(*result0.Space)) + off(*result0.Space)
 //@   ensures holder_region: result1 == nil && result0.typ == TypeHolder ==> result0.Addr == ticket_lo && result0.Addr + uintptr(spaceLen) == ticket_hi
-//@     | && placeHolderIns.min <= result0.Addr && ticket_hi <= placeHolderIns.max && *result0.Space == mkslice(textref, result0.Addr, spaceLen, spaceLen)
+//@     | && placeHolderIns.min <= result0.Addr && ticket_hi <= placeHolderIns.max && result0.Addr <= ticket_hi && *result0.Space == mkslice(textref, result0.Addr, spaceLen, spaceLen)
 //@   ensures wf_kept: holder_wf()
 
 //@ func Write
@@ -42,8 +42,8 @@ package stub
 //@   requires fits: len(data) <= len(*s.Space) && len(data) < 0x100000000
 //@   requires data_is_ordinary_memory: arr(data) != textref
 //@   requires holder_window: s.typ == TypeHolder ==> s.Addr < 0x7fffffff00000000
-//@   requires mmap_region: s.typ == TypeMMap ==> arr(*s.Space) != textref && arr(*s.Space) != arr(data)
+//@   requires mmap_region: s.typ == TypeMMap ==> arr(*s.Space) != textref
 //@   assigns (*s.Space)[0 : len(data)], textmem[s.Addr : s.Addr + uintptr(len(data))], perm, rw_wheld[addr(memory.memoryAccessLock)]
-//@   ensures mmap_copied: s.typ == TypeMMap ==> result == nil && forall i int :: 0 <= i && i < len(data) ==> (*s.Space)[i] == data[i]
+//@   ensures mmap_copied: s.typ == TypeMMap ==> result == nil && forall i int :: 0 <= i && i < len(data) ==> (*s.Space)[i] == old(data[i])
 //@   ensures holder_written: s.typ == TypeHolder ==> result == nil && forall i int :: 0 <= i && i < len(data) ==> textmem[s.Addr + uintptr(i)] == data[i]
 //@   ensures bad_type_rejected: s.typ != TypeMMap && s.typ != TypeHolder ==> result != nil
